@@ -459,6 +459,7 @@ class SpooledStringIO(SpooledIOBase):
             length = None
         if length == 0:
             return ''
+        pos = self.tell()
         ret = self.buffer.readline(length).decode('utf-8')
         # The codec reader also stops at '\r' and the other unicode
         # line boundaries; like io.StringIO, only '\n' ends a line here
@@ -469,7 +470,12 @@ class SpooledStringIO(SpooledIOBase):
             if not more:
                 break
             ret += more
-        self._tell = self.tell() + len(ret)
+        if length is not None and len(ret) > length:
+            # the codec reader completes a '\r\n' pair past the limit
+            ret = ret[:length]
+            self.seek(pos + length)
+            return ret
+        self._tell = pos + len(ret)
         return ret
 
     def readlines(self, sizehint=0):
